@@ -83,17 +83,19 @@ def model_step(L, op, n):
     raise ValueError(op)
 
 
-def run_chain(matches, chain, terminal, env, order_rng=None, source="iterator"):
+def run_chain(matches, chain, terminal, env, order_rng=None, source="iterator", query=None, between=None):
     """Execute chain on the real Query and on the model; return None or a diff string."""
     import jsonpath
 
     probe = Probe(matches)
     if source.startswith("hint"):
         probe = HintProbe(matches, int(source[4:]))
-    q = jsonpath.Query(probe.gen() if source == "generator" else probe, env)
+    q = jsonpath.Query(probe.gen() if source == "generator" else probe, env) if query is None else query
     L = list(matches)
     pending = []  # (Query, expected list, label)
     for op, n in chain:
+        if between is not None:
+            between()
         if op == "pull":
             # consume n matches by iterating the query itself, then abandon that iterator
             k = max(n, 0)
@@ -105,7 +107,7 @@ def run_chain(matches, chain, terminal, env, order_rng=None, source="iterator"):
                     break
                 got.append(m)
             del it
-            if len(got) != len(L[:k]) or any(a is not b for a, b in zip(got, L[:k])):
+            if len(got) != len(L[:k]) or any(not _same(a, b) for a, b in zip(got, L[:k])):
                 return "iterating the query pulled %r, expected %r" % ([m.obj for m in got], [m.obj for m in L[:k]]), probe.pulls
             L = L[k:]
             continue
@@ -154,11 +156,11 @@ def run_chain(matches, chain, terminal, env, order_rng=None, source="iterator"):
         early, pending = pending[:k], pending[k:]
         for pq, exp, label in early:
             got = list(pq)
-            if len(got) != len(exp) or any(a is not b for a, b in zip(got, exp)):
+            if len(got) != len(exp) or any(not _same(a, b) for a, b in zip(got, exp)):
                 return "%s yields %d matches, expected %d (consumed before the main query)" % (label, len(got), len(exp)), probe.pulls
     if terminal == "iter":
         got = list(q)
-        ok = len(got) == len(L) and all(a is b for a, b in zip(got, L))
+        ok = len(got) == len(L) and all(_same(a, b) for a, b in zip(got, L))
     elif terminal == "values":
         got = list(q.values())
         ok = got == [m.obj for m in L]
@@ -173,17 +175,21 @@ def run_chain(matches, chain, terminal, env, order_rng=None, source="iterator"):
         ok = got == [str(m.pointer()) for m in L]
     elif terminal in ("first_one", "one"):
         got = getattr(q, terminal)()
-        ok = got is (L[0] if L else None)
+        ok = _same(got, L[0]) if L and got is not None else (got is None and not L)
     else:
         got = q.last_one()
-        ok = got is (L[-1] if L else None)
+        ok = _same(got, L[-1]) if L and got is not None else (got is None and not L)
     if not ok:
         return "terminal %s produced %r, list model expects %d matches %r" % (terminal, _short(got), len(L), [m.obj for m in L][:8]), probe.pulls
     for pq, exp, label in pending:
         got = list(pq)
-        if len(got) != len(exp) or any(a is not b for a, b in zip(got, exp)):
+        if len(got) != len(exp) or any(not _same(a, b) for a, b in zip(got, exp)):
             return "%s yields %r, expected %r" % (label, [m.obj for m in got][:8], [m.obj for m in exp][:8]), probe.pulls
     return None, probe.pulls
+
+
+def _same(a, b):
+    return a is b or (a is not None and b is not None and a.path == b.path and a.obj is b.obj)
 
 
 def _short(got):
@@ -195,6 +201,12 @@ def _short(got):
         return repr(got)[:80]
 
 
+def canon_small(d):
+    import json
+
+    return json.dumps(d, sort_keys=True)
+
+
 def plan(tier, seed):
     specs = []
     maxlen = 2 if tier == "quick" else 3
@@ -202,6 +214,7 @@ def plan(tier, seed):
     for n in range(6):
         for first in CHAINABLE:
             specs.append({"kind": "exhaustive", "n": n, "first": first, "maxlen": maxlen})
+    specs.append({"kind": "shared-compiled", "count": 1500 if tier == "quick" else 40000})
     for _ in range(6 if tier == "quick" else 16):
         specs.append({"kind": "sampled", "count": 4000 if tier == "quick" else 150000})
     return specs
@@ -239,6 +252,28 @@ def run(spec, ctx):
 
     env = jsonpath.DEFAULT_ENV
     r = ctx.rng
+    if spec["kind"] == "shared-compiled":
+        # queries obtained from ONE compiled filter path (whose filters read `$` and `_`), read a few matches at a time
+        # while the same compiled path is evaluated over another document and context in between
+        paths = [jsonpath.compile(t) for t in ("$.items[?@.price <= $.budget]", "$.items[?@.price <= _.budget].price", "$..[?@.price > $.floor && @.price <= _.budget]", "$.items[?@.price <= $.budget] | $.items[?@.price > $.budget]")]
+        for _ in range(spec["count"]):
+            cp = r.choice(paths)
+            n = r.randint(0, 12)
+            doc_a = {"budget": r.choice([3, 10, 50]), "floor": r.choice([0, 2]), "items": [{"price": r.randint(1, 60), "id": i} for i in range(n)]}
+            doc_b = {"budget": r.choice([0, 100]), "floor": 1, "items": [{"price": r.randint(1, 60), "id": 100 + i} for i in range(r.randint(1, 8))]}
+            ctx_a, ctx_b = {"budget": r.choice([5, 30])}, {"budget": r.choice([0, 1000])}
+            want = list(jsonpath.compile(str(cp)).finditer(doc_a, filter_context=ctx_a))
+            chain = [(r.choice(CHAINABLE), r.choice([-1, 0, 1, 2, 3, len(want) - 1, len(want), len(want) + 1])) for _i in range(r.randint(1, 6))]
+            chain = [(op, (r.choice([0, 1, 2]) if op == "tee" else max(c, -1))) for op, c in chain]
+            term = r.choice(TERMINALS)
+            diff, _p = run_chain(want, chain, term, env, order_rng=r, query=cp.query(doc_a, filter_context=ctx_a), between=lambda: list(cp.finditer(doc_b, filter_context=ctx_b)))
+            ctx.evaluation()
+            ctx.case(h("shared", str(cp), canon_small(doc_a), chain, term))
+            if diff:
+                ctx.violation("chain-differs-from-list-model:query-from-a-compiled-path-evaluated-elsewhere-in-between", {"kind": "shared-compiled", "path": str(cp), "doc_a": doc_a, "doc_b": doc_b, "ctx_a": ctx_a, "ctx_b": ctx_b, "chain": [list(x) for x in chain], "terminal": term}, {"path": str(cp), "chain": [list(x) for x in chain], "terminal": term, "diff": diff})
+                return
+        ctx.count("chains_on_queries_from_a_shared_compiled_path", spec["count"])
+        return
     if spec["kind"] == "exhaustive":
         n = spec["n"]
         ms = matches_for(n)
@@ -333,6 +368,16 @@ def replay(case, ctx):
     import random
 
     import jsonpath
+
+    if case.get("kind") == "shared-compiled":
+        cp = jsonpath.compile(case["path"])
+        want = list(jsonpath.compile(case["path"]).finditer(case["doc_a"], filter_context=case["ctx_a"]))
+        ctx.evaluation()
+        diff, _ = run_chain(want, [tuple(x) for x in case["chain"]], case["terminal"], jsonpath.DEFAULT_ENV, query=cp.query(case["doc_a"], filter_context=case["ctx_a"]),
+                            between=lambda: list(cp.finditer(case["doc_b"], filter_context=case["ctx_b"])))
+        if diff:
+            ctx.violation("chain-differs-from-list-model:replay", case, {"diff": diff})
+        return
 
     ctx.evaluation()
     for seed in range(18):
